@@ -1009,6 +1009,142 @@ def finish_chunk(prop, lab):
         shutil.rmtree(d, ignore_errors=True)
 
 
+# -- C18 ---------------------------------------------------------------------------------------
+def _request_types():
+    from labrea.cache import CacheExistsRequest, CacheGetRequest, CacheSetRequest
+    from labrea.logging import LogRequest
+    from labrea.type_validation import TypeValidationRequest
+    from labrea.types import EvaluateRequest, ExplainRequest, KeysRequest, ValidateRequest
+
+    return {"evaluate": EvaluateRequest, "validate": ValidateRequest, "keys": KeysRequest, "explain": ExplainRequest,
+            "cache_get": CacheGetRequest, "cache_set": CacheSetRequest, "cache_exists": CacheExistsRequest,
+            "log": LogRequest, "type_validation": TypeValidationRequest}
+
+
+def _with_passthrough(names, seen, fn):
+    """Run fn() with recording pass-through handlers for the named request types."""
+    from labrea.runtime import current_runtime, handle
+
+    RT = _request_types()
+    base = current_runtime().handlers
+    handlers = {}
+    for n in names:
+        R = RT[n]
+        inner = base[R]
+
+        def h(request, _inner=inner, _n=n):
+            seen.append((_n, request))
+            return _inner(request)
+
+        handlers[R] = h
+    with handle(handlers):
+        return fn()
+
+
+def judge_c18(case, lab):
+    res = Result()
+    a = case["a"]
+    o = dec(a["o"])
+    visited = set(a["visitedn"])
+    RT = _request_types()
+    ops = {"evaluate": lambda g: g.root.evaluate(copy.deepcopy(o)), "validate": lambda g: g.root.validate(copy.deepcopy(o)),
+           "keys": lambda g: set(g.root.keys(copy.deepcopy(o))), "explain": lambda g: set(g.root.explain(copy.deepcopy(o)))}
+    plain = {}
+    for op, fn in ops.items():
+        g = _fresh(case, lab)
+        plain[op] = observe.call(lambda: fn(g), lab)
+    if plain["evaluate"].get("lazy"):
+        return res
+    res.nontrivial = len(case["nodes"]) > 1
+    # (1) every request type alone, and all together: results unchanged
+    for names in [[n] for n in RT] + [list(RT)]:
+        for op, fn in ops.items():
+            g = _fresh(case, lab)
+            seen = []
+            got = _with_passthrough(names, seen, lambda: observe.call(lambda: fn(g), lab))
+            if not same_outcome(got, plain[op]):
+                res.bad("passthrough-changes-result", "%s with pass-through handlers for %s gives %s, without %s" % (
+                    op, names if len(names) == 1 else "all request types", observe.describe(got), observe.describe(plain[op])))
+            if len(names) > 1 or names[0] != op:
+                if len(names) == 1:
+                    continue
+            # (2) the handler observes the operation on every object it reaches
+            targets = [r for n, r in seen if n == op]
+            objs = {id(getattr(r, {"evaluate": "evaluatable", "validate": "validatable", "keys": "cacheable",
+                                   "explain": "explainable"}[op])) for r in targets}
+            if id(g.root) not in objs:
+                res.bad("request-not-issued", "%s of the root was not issued as a %s" % (op, RT[op].__name__))
+            has_coalesce = any(nd["k"] == "coalesce" for nd in case["nodes"])
+            if op == "evaluate" and not has_coalesce:
+                missing = [n for n in visited if n in g.obj and id(g.obj[n]) not in objs and not _is_inlined(case, n)]
+                if missing and plain["evaluate"]["ok"]:
+                    res.bad("nested-evaluate-not-observed", "evaluate of nodes %s (on the selected path) was not observed by the handler" % sorted(missing))
+            if len(names) > 1 and op == "evaluate" and plain["evaluate"]["ok"]:
+                # the side requests are observed where the ROOT itself is the node that issues them
+                kinds = [n for n, r in seen]
+                rk = case["nodes"][-1]["k"]
+                if rk in ("ds", "dsof", "cached") and kinds.count("cache_exists") < 1:
+                    res.bad("cache-requests", "a cached node was evaluated but no CacheExistsRequest was observed")
+                if rk in ("ds", "cached") and case["nodes"][-1].get("cache", "mem") == "mem" and kinds.count("cache_set") < 1:
+                    res.bad("cache-requests", "a cold cached node was evaluated but no CacheSetRequest was observed")
+                if rk == "opt" and kinds.count("type_validation") < 1:
+                    res.bad("type-validation-requests", "an option was evaluated but no TypeValidationRequest was observed")
+                if rk in ("ds", "dsof") and kinds.count("log") < 1:
+                    res.bad("log-requests", "a dataset was evaluated (cold) but no LogRequest was observed")
+    # (3) a substituting handler for one dataset is honoured wherever it is used
+    from labrea.runtime import current_runtime, handle
+    from labrea.types import EvaluateRequest
+
+    bases = {nd["base"] for nd in case["nodes"] if nd["k"] == "dsof"}
+    if any(nd["k"] == "coalesce" for nd in case["nodes"]):
+        # a coalesce validates a member before evaluating it; validation is not substituted, so the
+        # member may be skipped -- the relation below is stated for graphs without coalesce
+        return res
+    if not (plain["evaluate"]["ok"] and plain["keys"]["ok"] and plain["validate"]["ok"]):
+        # keys() / validate() of the dataset are not substituted: where they fail, a caching or
+        # validating consumer never asks for the (substituted) value
+        return res
+    for d in sorted(n for n in visited if case["nodes"][n - 1]["k"] == "ds" and n not in bases and n != len(case["nodes"])):
+        g = _fresh(case, lab)
+        target = g.obj[d]
+        inner = current_runtime().handlers[EvaluateRequest]
+        sub = ("T", "SUB", (d,))
+
+        def h(request, _inner=inner, _t=target, _s=sub):
+            if request.evaluatable is _t:
+                return _s
+            return _inner(request)
+
+        with handle(EvaluateRequest, h):
+            got = observe.call(lambda: g.root.evaluate(copy.deepcopy(o)), lab)
+        nodes2 = copy.deepcopy(case["nodes"])
+        nodes2[d - 1] = {"k": "val", "v": {"t": "T", "f": "SUB", "a": [{"t": "i", "i": d}]}}
+        tabs2 = [[e for e in t] for t in case["tabs"]]
+        try:
+            g2 = build.Built(lab, nodes2, [[] if case["nodes"][d - 1].get("tab") == i + 1 else t for i, t in enumerate(tabs2)],
+                             raises=a.get("raises", ()))
+        except Exception:  # noqa
+            continue
+        ref = observe.call(lambda: g2.root.evaluate(copy.deepcopy(o)), lab)
+        if not same_outcome(got, ref):
+            res.bad("substitution", "substituting dataset node %d: got %s; the graph with that node replaced by the constant gives %s" % (
+                d, observe.describe(got), observe.describe(ref)))
+    return res
+
+
+def _is_inlined(case, n):
+    """Nodes the builder hands to labrea as plain arguments (no separate object is evaluated):
+    a constant / template / factory default of an Option, a container domain, the fnapp default of a dataset."""
+    for nd in case["nodes"]:
+        if nd["k"] == "opt" and (nd["d"] == n or nd["dom"] == n):
+            k = case["nodes"][n - 1]["k"]
+            if k == "val" or (k == "tmpl" and not case["nodes"][n - 1]["ps"]) or (k == "fnapp" and not case["nodes"][n - 1]["args"]):
+                return True
+        if nd["k"] == "ds" and nd["dflt"] == n and case["nodes"][n - 1]["k"] == "fnapp":
+            return True
+    return False
+
+
 # -- C07 ---------------------------------------------------------------------------------------
 def judge_c07(case, lab):
     """One history: overloads registered before and between calls on one long-lived graph.  Each
@@ -1067,7 +1203,7 @@ def canon_val(v):
 TIER = ["quick"]
 
 JUDGES = {"C04": judge_c04, "C09": judge_c09, "C05": judge_c05, "C10": judge_c10, "C11": judge_c11,
-          "C08": judge_c08, "C06": judge_c06, "C07": judge_c07}
+          "C08": judge_c08, "C06": judge_c06, "C07": judge_c07, "C18": judge_c18}
 GROUP_JUDGES = {"C03": judge_c03_group, "C01": judge_c01_group, "C02": judge_c02_group, "C12": judge_c12_group,
                 "C16": judge_c16_group, "C19": judge_c19_group, "C20": judge_c20_group}
 
